@@ -793,10 +793,10 @@ fn finish(stats: &mut ShardStats) {
 
 pub fn families(tier: Tier) -> Vec<Family> {
     vec![
-        Family { menu: Menu::Reuse, k: tier.pick(3, 4) },
-        Family { menu: Menu::General, k: tier.pick(3, 4) },
-        Family { menu: Menu::Pointers, k: tier.pick(2, 3) },
-        Family { menu: Menu::ClientArgs, k: tier.pick(2, 3) },
+        Family { menu: Menu::Reuse, k: tier.pick(3, 5) },
+        Family { menu: Menu::General, k: tier.pick(3, 5) },
+        Family { menu: Menu::Pointers, k: tier.pick(2, 4) },
+        Family { menu: Menu::ClientArgs, k: tier.pick(2, 4) },
         Family { menu: Menu::Cycles, k: tier.pick(1, 2) },
     ]
 }
